@@ -398,6 +398,8 @@ func topicsOK(got []string, want string) bool {
 		return len(got) == 2 && got[0] == "a" && got[1] == "b"
 	case "given1":
 		return len(got) == 1 && got[0] == "a"
+	case "named+default":
+		return len(got) == 2 && got[0] == "a" && got[1] == sse.DefaultTopic
 	}
 	return len(got) == 1 && got[0] == sse.DefaultTopic
 }
@@ -438,6 +440,8 @@ func cmdServe(args []string) {
 						tp = []string{"a"}
 					case "two":
 						tp = []string{"a", "b"}
+					case "named+default":
+						tp = []string{"a", sse.DefaultTopic}
 					}
 					err := s.Publish(seMessage("m1"), tp...)
 					res.eval(1)
@@ -492,6 +496,11 @@ func cmdServe(args []string) {
 					}
 				case "accept-one-topic":
 					s.OnSession = func(http.ResponseWriter, *http.Request) ([]string, bool) { called = true; return []string{"a"}, true }
+				case "accept-named-and-default":
+					s.OnSession = func(http.ResponseWriter, *http.Request) ([]string, bool) {
+						called = true
+						return []string{"a", sse.DefaultTopic}, true
+					}
 				case "accept-empty-topics":
 					s.OnSession = func(http.ResponseWriter, *http.Request) ([]string, bool) { called = true; return []string{}, true }
 				}
